@@ -215,6 +215,27 @@ partial def loop (h : IO.FS.Stream) (d : D) (lineNo : Nat) (pending : Option Out
         loop h { d with diffs := d.diffs + 1 } (lineNo+1) none
       else loop h { d with ops := d.ops + 1, hist := bump d.hist "formatHex" } (lineNo+1) none
     | _ => loop h d (lineNo+1) none
+  | ["fr", base, off, sz, str] =>
+    match d.litRes with
+    | some (.ok _ v dd) =>
+      let m := formatRange v dd base.toNat! off.toNat! sz.toNat!
+      let m := if m.isEmpty then "-" else m
+      if m != str then
+        IO.println s!"DIFF case={d.caseId} line={lineNo} op=[formatRange {d.litStr} base={base} off={off} size={sz}] model={m} impl={str}"
+        IO.println s!"PROPFAIL case={d.caseId} line={lineNo} op=[formatRange {d.litStr} base={base} off={off} size={sz}] spec={m} impl={str}"
+        loop h { d with diffs := d.diffs + 1, propfails := d.propfails + 1 } (lineNo+1) none
+      else loop h { d with ops := d.ops + 1, hist := bump d.hist "formatRange" } (lineNo+1) none
+    | _ => loop h d (lineNo+1) none
+  | ["fs", base, drop, str] =>
+    match d.litRes with
+    | some (.ok size v dd) =>
+      let m := formatState size v dd base.toNat! (drop == "1")
+      let m := if m.isEmpty then "-" else m
+      if m != str then
+        IO.println s!"DIFF case={d.caseId} line={lineNo} op=[formatState {d.litStr} base={base} drop={drop}] model={m} impl={str}"
+        loop h { d with diffs := d.diffs + 1 } (lineNo+1) none
+      else loop h { d with ops := d.ops + 1, hist := bump d.hist "formatState" } (lineNo+1) none
+    | _ => loop h d (lineNo+1) none
   | ["load", _] => loop h { d with lastOp := "load" } (lineNo+1) (some (.mut 99))   -- content loaded through data(): next dump is taken as is
   | "->" :: rest =>
     let v := " ".intercalate rest
